@@ -173,7 +173,18 @@ impl Typer
 			}
 			Some(Err(poison)) =>
 			{
-				self.poison_symbol(identifier, poison);
+				// A symbol whose type is known keeps it. The error that
+				// poisoned the new value is reported where it occurred,
+				// which may be in another use of this very symbol.
+				let is_known = match self.symbols.get(&identifier.resolution_id)
+				{
+					Some(symbol) => symbol.value_type.is_ok(),
+					None => false,
+				};
+				if !is_known
+				{
+					self.poison_symbol(identifier, poison);
+				}
 				Ok(())
 			}
 			None => Ok(()),
